@@ -64,7 +64,7 @@ class RemotePickler36(pickle.Pickler):
             newobj = copyreg.__newobj__
             args = args or tuple()
             newargs = (type(obj), *args)
-        elif args:
+        elif args is not None: # an empty tuple is fine (keyword-only constructor arguments), CPython only rejects a missing one
             newobj = copyreg.__newobj_ex__
             newargs = (type(obj), args, kwargs)
         else:
